@@ -94,6 +94,12 @@ func (r *Runner) RunCheck(ck *Check, tier string, seed int, filter string) int {
 				return
 			}
 			defer solver.Close()
+			if lp := os.Getenv("VERIF_SMTLOG"); lp != "" {
+				if f, err := os.Create(lp); err == nil {
+					solver.Log = f
+					defer f.Close()
+				}
+			}
 			var cross *smt.Solver
 			if r.Cross != "" {
 				cross, _ = smt.StartSolver(r.Cross, r.TimeoutMs)
